@@ -14,10 +14,15 @@ fn char_ok(c: u8) -> bool {
 }
 fn str_ok(s: &str, maxlen: usize) -> bool {
     let b = s.as_bytes();
-    if b.len() > maxlen { return false; }
+    if b.len() > maxlen || maxlen > 8 { return false; }
+    // fixed trip count (the length is symbolic)
+    let mut ok = true;
     let mut i = 0;
-    while i < b.len() { if !char_ok(b[i]) { return false; } i += 1; }
-    true
+    while i < 8 {
+        if i < b.len() && !char_ok(b[i]) { ok = false; }
+        i += 1;
+    }
+    ok
 }
 
 macro_rules! range {
